@@ -142,7 +142,7 @@ Record bu_entry := mkBU {
 (* one entry that passed the nil checks and validateHash: its per-blob status *)
 Definition bu_one (c : fcfg) (d : dstate) (e : bu_entry) : dstate * status :=
   match bu_comp e with
-  | COther _ => (d, SOk)      (* gRPCErrCode(err, InvalidArgument) with err == nil: codes.OK, nothing stored *)
+  | COther _ => (d, bad)      (* unsupported compressor: per-blob InvalidArgument, nothing stored *)
   | cm =>
       if (match cm with CZstd => negb (b_clean (bu_body e)) | _ => false end) then (d, SErr EInternal) else
       if negb (b_len (bu_body e) =? bu_size e) then (d, bad) else
@@ -188,6 +188,11 @@ Definition bs_stream (zstd : bool) (b : body) (piped : Z) (recv_err : bool) : st
   if zstd then (if recv_err then mkStream (b_cid b) (b_len b) true false (b_len b) else stream_of b)
   else mkStream (b_cid b) piped recv_err (b_hash_ok b) piped.
 
+(* the already-exists shortcut: not taken for the empty digest (which always "exists"), so that Put
+   gets to refuse data sent for it *)
+Definition bs_shortcut (exists_ : bool) (hash : string) (size : Z) : bool :=
+  exists_ && negb ((size =? 0) && String.eqb hash emptySha256).
+
 Definition bs_write (c : fcfg) (d : dstate) (nm : wname) (msgs : list wmsg) (aborted : bool) (b : body) (rnd : string)
   : dstate * status :=
   match msgs with
@@ -200,7 +205,7 @@ Definition bs_write (c : fcfg) (d : dstate) (nm : wname) (msgs : list wmsg) (abo
           if negb (validate_hash hash size) then (d, bad) else
           if size >? fc_grpc_max c then (d, bad) else
           let '(d1, exists_, _) := disk_contains c d CAS hash size in
-          if exists_ then (d1, SOk) else
+          if bs_shortcut exists_ hash size then (d1, SOk) else
           if negb (wm_off m0 =? 0) then (d1, SErr EInternal) else
           let '(piped, e) := recv_loop z size 0 true msgs aborted in
           let '(d2, r) := disk_put c d1 CAS hash size
